@@ -210,37 +210,112 @@ func trueScale(k *run.K, c cfg) {
 	}
 }
 
+// buildVariant selects how the configuration is reached (the result must only depend on the final settings):
+// bit 0: standard parallels before origin; bit 1: other values are set first and then overwritten; bit 2: a
+// point is projected before the final settings are made (stale derived state).
+var buildVariant int
+
 func build(name string, R float64, centre geom.XY, par [2]float64) cfg {
+	c := buildOnce(name, R, centre, par)
+	return c
+}
+
+func buildOnce(name string, R float64, centre geom.XY, par [2]float64) cfg {
 	c := cfg{name: name, R: R, centre: centre, par: par}
 	c.desc = fmt.Sprintf("%s{R=%g centre=(%g,%g) parallels=(%g,%g)}", name, R, centre.X, centre.Y, par[0], par[1])
 	switch name {
 	case "AlbersEqualAreaConic":
 		p := carto.NewAlbersEqualAreaConic(R)
-		p.SetOrigin(centre)
-		p.SetStandardParallels(par[0], par[1])
+		if buildVariant&2 != 0 {
+			p.SetOrigin(geom.XY{X: centre.X/2 + 11, Y: -centre.Y/2 + 3})
+			p.SetStandardParallels(par[1]/2+7, par[0]/3-11)
+		}
+		if buildVariant&4 != 0 {
+			_ = p.Forward(geom.XY{X: centre.X + 1, Y: 0})
+			_ = p.Reverse(geom.XY{X: 0.5 * R, Y: 0.25 * R})
+		}
+		if buildVariant&1 != 0 {
+			p.SetStandardParallels(par[0], par[1])
+			p.SetOrigin(centre)
+		} else {
+			p.SetOrigin(centre)
+			p.SetStandardParallels(par[0], par[1])
+		}
 		c.p, c.conic, c.kind = p, 1, "equal-area"
 	case "LambertConformalConic":
 		p := carto.NewLambertConformalConic(R)
-		p.SetOrigin(centre)
-		p.SetStandardParallels(par[0], par[1])
+		if buildVariant&2 != 0 {
+			p.SetOrigin(geom.XY{X: centre.X/2 + 11, Y: -centre.Y/2 + 3})
+			p.SetStandardParallels(par[1]/2+7, par[0]/3-11)
+		}
+		if buildVariant&4 != 0 {
+			_ = p.Forward(geom.XY{X: centre.X + 1, Y: 0})
+			_ = p.Reverse(geom.XY{X: 0.5 * R, Y: 0.25 * R})
+		}
+		if buildVariant&1 != 0 {
+			p.SetStandardParallels(par[0], par[1])
+			p.SetOrigin(centre)
+		} else {
+			p.SetOrigin(centre)
+			p.SetStandardParallels(par[0], par[1])
+		}
 		c.p, c.conic, c.kind = p, 2, "conformal"
 	case "EquidistantConic":
 		p := carto.NewEquidistantConic(R)
-		p.SetOrigin(centre)
-		p.SetStandardParallels(par[0], par[1])
+		if buildVariant&2 != 0 {
+			p.SetOrigin(geom.XY{X: centre.X/2 + 11, Y: -centre.Y/2 + 3})
+			p.SetStandardParallels(par[1]/2+7, par[0]/3-11)
+		}
+		if buildVariant&4 != 0 {
+			_ = p.Forward(geom.XY{X: centre.X + 1, Y: 0})
+			_ = p.Reverse(geom.XY{X: 0.5 * R, Y: 0.25 * R})
+		}
+		if buildVariant&1 != 0 {
+			p.SetStandardParallels(par[0], par[1])
+			p.SetOrigin(centre)
+		} else {
+			p.SetOrigin(centre)
+			p.SetStandardParallels(par[0], par[1])
+		}
 		c.p, c.conic = p, 3
 	case "AzimuthalEquidistant":
 		p := carto.NewAzimuthalEquidistant(R)
+		if buildVariant&2 != 0 {
+			p.SetCenter(geom.XY{X: -centre.X / 2, Y: centre.Y/2 + 5})
+		}
+		if buildVariant&4 != 0 {
+			_ = p.Forward(geom.XY{X: 3, Y: 0})
+			_ = p.Reverse(geom.XY{X: 0.1 * R, Y: 0.2 * R})
+		}
 		p.SetCenter(centre)
 		c.p, c.azim = p, true
 	case "Orthographic":
 		p := carto.NewOrthographic(R)
+		if buildVariant&2 != 0 {
+			p.SetCenter(geom.XY{X: -centre.X / 2, Y: centre.Y/2 + 5})
+		}
+		if buildVariant&4 != 0 {
+			_ = p.Forward(geom.XY{X: 3, Y: 0})
+			_ = p.Reverse(geom.XY{X: 0.1 * R, Y: 0.2 * R})
+		}
 		p.SetCenter(centre)
 		c.p, c.azim = p, true
 	case "Equirectangular":
 		p := carto.NewEquirectangular(R)
-		p.SetCentralMeridian(centre.X)
-		p.SetStandardParallels(par[0])
+		if buildVariant&2 != 0 {
+			p.SetCentralMeridian(centre.X/2 - 9)
+			p.SetStandardParallels(par[0]/2 + 13)
+		}
+		if buildVariant&4 != 0 {
+			_ = p.Forward(geom.XY{X: 3, Y: 0})
+		}
+		if buildVariant&1 != 0 {
+			p.SetStandardParallels(par[0])
+			p.SetCentralMeridian(centre.X)
+		} else {
+			p.SetCentralMeridian(centre.X)
+			p.SetStandardParallels(par[0])
+		}
 		c.centre.Y = 0
 		c.p = p
 	case "LambertCylindricalEqualArea":
@@ -268,6 +343,7 @@ func runAll(c *run.Ctx) {
 	runCfg := func(name string, R float64, centre geom.XY, par [2]float64) {
 		idx++
 		c.Case("cfg:"+name, idx, func(k *run.K) {
+			buildVariant = k.Index % 8
 			cf := build(name, R, centre, par)
 			k.In("config", cf.desc)
 			if centre.X != 0 || centre.Y != 0 || par != [2]float64{30, 60} {
